@@ -195,18 +195,17 @@ func (c *client) Execute(
 	if c.atpVersion > 1 {
 		// Wrap it in a runtime message.
 		workStartMsg = RuntimeMessage{RunID: stepData.RunID, MessageID: MessageTypeWorkStart, MessageData: workStartMsg}
-		// Handle signals to the step
+		// Setup channels for ATP v2
+		err := c.prepareResultChannels(cborReader, stepData, signalsFromStep, signalsToStep != nil)
+		if err != nil {
+			return NewErrorExecutionResult(err)
+		}
+		// Handle signals to the step. The wait group was incremented by prepareResultChannels.
 		if signalsToStep != nil {
-			c.wg.Add(1)
 			go func() {
 				defer c.wg.Done()
 				c.executeWriteLoop(stepData.RunID, signalsToStep)
 			}()
-		}
-		// Setup channels for ATP v2
-		err := c.prepareResultChannels(cborReader, stepData, signalsFromStep)
-		if err != nil {
-			return NewErrorExecutionResult(err)
 		}
 	}
 	if err := c.sendCBOR(workStartMsg); err != nil {
@@ -568,11 +567,17 @@ func (c *client) prepareResultChannels(
 	cborReader *cbor.Decoder,
 	stepData schema.Input,
 	emittedSignals chan<- schema.Input,
+	startsWriteLoop bool,
 ) error {
 	c.logger.Debugf("Preparing result channels for step with run ID %q", stepData.RunID)
 	vh("c.register.pre", "run", stepData.RunID)
 	c.mutex.Lock()
 	defer c.mutex.Unlock()
+	// The wait group Close waits on is only incremented here, under the mutex and while the client is not
+	// closed, so that no increment can coincide with Close waiting on it (sync.WaitGroup panics on that).
+	if c.done {
+		return fmt.Errorf("client is closed, cannot execute step with run ID '%s'", stepData.RunID)
+	}
 	_, existing := c.runningStepResultEntries[stepData.RunID]
 	if existing {
 		vh("c.register", "run", stepData.RunID, "dup", true)
@@ -586,6 +591,9 @@ func (c *client) prepareResultChannels(
 	c.runningStepResultEntries[stepData.RunID] = &resultEntry
 	if emittedSignals != nil {
 		c.runningStepEmittedSignalChannels[stepData.RunID] = emittedSignals
+	}
+	if startsWriteLoop {
+		c.wg.Add(1)
 	}
 	// Run the loop if it isn't running.
 	if !c.readLoopRunning {
